@@ -236,3 +236,69 @@ def _oom_step(P, ks, a, op):
     t.clear()
     del t
     gc.collect()
+
+
+# ---------------------------------------------------------------------------
+# the fs family's own allocating entry point: fsBucket.fromBytes (and toBytes round trip)
+
+FS_SIZES = [0, 1, 2, 5, 3000]       # 3000: the vectors cannot grow in place, realloc moves them
+
+
+def oom_fs(P, ks, a):
+    """a: s0, s1 (sizes of the bucket before the call / of the state loaded, selectors into FS_SIZES), n (failing allocation)"""
+    s0 = common.choose(a['s0'], len(FS_SIZES))
+    s1 = common.choose(a['s1'], len(FS_SIZES))
+    import importlib
+    cmod = importlib.import_module('BTrees._fsBTree')
+    if not hasattr(cmod, '_verif_fail_alloc_after'):
+        raise RuntimeError('extension built without the BTREES_VERIF hook')
+    with common.untraced():
+        from BTrees.fsBTree import fsBucket
+
+        def ents(n, tag):
+            return [((2 * i + tag - 48).to_bytes(2, 'big'), bytes([97 + i % 26]) * 6) for i in range(n)]
+        old, new = ents(FS_SIZES[s0], 48), ents(FS_SIZES[s1], 49)
+        state = b''.join(k for k, _ in new) + b''.join(v for _, v in new)
+
+        def fresh():
+            b = fsBucket()
+            for k, v in old:
+                b[k] = v
+            return b
+        b = fresh()
+        arm(cmod, -1)
+        b.fromBytes(state)
+        nalloc = min(arm(cmod, -1), NMAX)
+        del b
+    with common.traced():
+        n = common.choose(a['n'], nalloc + 1)
+    with common.untraced():
+        ctx = {'harness': 'oom_fs', 'old': FS_SIZES[s0], 'new': FS_SIZES[s1], 'n': n, 'nalloc': nalloc}
+        b = fresh()
+        arm(cmod, n if n < nalloc else -1)
+        try:
+            b.fromBytes(state)
+            exc = None
+        except MemoryError:
+            exc = 'MemoryError'
+        except Exception as e:      # noqa
+            exc = type(e).__name__
+        calls = arm(cmod, -1)
+        fired = n < nalloc and calls > n
+        if fired and exc != 'MemoryError':
+            fail('an allocation failed inside fromBytes but the caller got %s instead of MemoryError' % exc, ctx)
+        if not fired and exc is not None:
+            fail('fromBytes raised %s although no allocation failed' % exc, ctx)
+        got = list(b.items())
+        if got != (new if not fired else old) and got != new:
+            fail('after fromBytes the contents are neither the previous ones nor the loaded state', ctx, got)
+        # the bucket stays usable and can be destroyed (a dangling or doubly freed vector kills the interpreter here)
+        for i in range(12):
+            b[bytes([250, 48 + i])] = b'zzzzzz'
+        if len(list(b.keys())) != len(b) or sorted(b.keys()) != list(b.keys()):
+            fail('the bucket is damaged after a failed fromBytes', ctx)
+        if b.toBytes() != fsBucket().fromBytes(b.toBytes()).toBytes():
+            fail('toBytes/fromBytes do not round-trip', ctx)
+        b.clear()
+        del b
+        gc.collect()
